@@ -1,6 +1,9 @@
 //! Provides [PriceRepository], which can compute the commodity (currency) conversion.
 
 #[cfg(okane_verif)]
+#[allow(unused_imports)]
+use crate::verif::chrono;
+#[cfg(okane_verif)]
 use crate::verif::std;
 use std::{
     collections::{hash_map, BinaryHeap, HashMap},
